@@ -105,3 +105,11 @@ func VerifModHashList(s *ServantProxy) []endpoint.Endpoint {
 func VerifNewServerAny(v interface{}, f interface{}, withContext bool, conf *transport.TarsServerConf) (*transport.TarsServer, *Protocol) {
 	return VerifNewServer(v.(dispatch), f, withContext, conf)
 }
+
+// VerifModHashState returns the installed list and the weighted cycle of the manager's mod-hash selector.
+func VerifModHashState(s *ServantProxy) ([]endpoint.Endpoint, []int) {
+	if em, ok := s.manager.(*endpointManager); ok && em.activeEpModHash != nil {
+		return em.activeEpModHash.VerifEndpoints()
+	}
+	return nil, nil
+}
